@@ -93,7 +93,7 @@ def _run(P, tier, seed, rnd, work, notes, t0):
     n = P.N_THOROUGH if tier == "thorough" else P.N_QUICK
     corpus = corpus_lines(P.ID)
     cases = corpus + P.gen(rnd, tier, n)
-    impl = run_impl(impl_exe, cases, work, sequential=getattr(P, "SEQUENTIAL", False))
+    impl = run_impl(impl_exe, cases, work, sequential=getattr(P, "SEQUENTIAL", False), timeout=getattr(P, "IMPL_TIMEOUT", 900))
     # properties whose model side validates what the implementation did (event traces) derive the model's input from the impl's output
     model_lines = [P.model_input(c, o) for c, o in zip(cases, impl)] if hasattr(P, "model_input") else cases
     model = run_model(model_exe, model_lines, work) if (runners_ok and P.NEEDS_MODEL) else [None] * len(cases)
@@ -148,7 +148,7 @@ def _run(P, tier, seed, rnd, work, notes, t0):
             rnd2 = random.Random(seed + 77)
             near = [cases[i] for i in disagreements[:50]]
             extra_cases = P.gen(rnd2, "search", m)
-            ex_impl = run_impl(impl_exe, extra_cases, work, sequential=getattr(P, "SEQUENTIAL", False))
+            ex_impl = run_impl(impl_exe, extra_cases, work, sequential=getattr(P, "SEQUENTIAL", False), timeout=getattr(P, "IMPL_TIMEOUT", 900))
             for l, a in zip(near + extra_cases, [impl[i] for i in disagreements[:50]] + ex_impl):
                 sig = P.oracle(l, a)
                 if sig and P.classify(l, a, sig) not in open_ids:
